@@ -33,7 +33,7 @@ GATES = {
     "C03": ["line_exact_one_below", "line_exact_one_above", "line_atleast_one_below", "met_exact_at_bound",
             "met_atleast_at_bound", "met_atleast_above_bound", "line_never_called", "verdict_lines_n1",
             "verdict_lines_n2", "verdict_lines_n3", "verdict_lines_n4", "life_report", "life_verify"],
-    "C04": ["mockpanic_WrongOrder", "mockpanic_OutOfRange", "mockpanic_InputsNotMatched", "out_return",
+    "C04": ["prefix_extension_cases", "mockpanic_WrongOrder", "mockpanic_OutOfRange", "mockpanic_InputsNotMatched", "out_return",
             "out_answer", "snapshots"],
     "C07": ["mockpanic_NoMockImpl", "mockpanic_CannotUnmock", "mockpanic_NoMatch", "mockpanic_NoDefaultImpl",
             "out_real", "out_default_body", "snapshots"],
@@ -59,6 +59,19 @@ RULES = {
                "is executed on the real unimock and judged by Spec-M after every operation (outcome, callback "
                "event log, H2 counter snapshot, verification text). distinct = distinct case hash; non-trivial = "
                "at least 2 patterns or at least 2 operations.",
+    "C04": "two stages. (1) SYSTEMATIC: for 1/40 of the generated ordered clause sets the expected slot sequence is "
+           "computed and, for every accepted prefix (length 0..10), EVERY possible next call (every mentioned method "
+           "plus one unmentioned one x every argument tuple of the domain) is made, followed by the next two expected "
+           "calls; (2) random histories that follow the expected sequence with 88% probability per call. Every call is "
+           "judged by Spec-M (accept / which rejection / response / global index via H2). distinct = distinct case hash; "
+           "non-trivial = at least 2 patterns or 2 operations.",
+    "C09": "two stages. (1) EXHAUSTIVE: every sequence of lifecycle events of length <= 4 (quick) / <= 6 (thorough) over "
+           "{clone of any live instance (<= 2 clones), call, provided-method call (creates the delegation helper), "
+           "make_ref of a value / of a clone, drop clone, verify()/no_verify_in_drop() on a clone, verify(), report(), "
+           "no_verify_in_drop(), drop, drop on a foreign thread} on a fixed two-clause mock whose verdict depends on the "
+           "history (met and unmet both occur); (2) random cases as for the other properties with 60% lifecycle "
+           "operations. Every operation's outcome (silent / which panic / ExitCode) is judged by the lifecycle automaton "
+           "of Spec-M. distinct = distinct case hash; non-trivial = at least 2 patterns or 2 operations.",
     "C18": "base case as for C01-C04; for each base case the real code is run again under (a) a clause "
            "permutation keeping per-method and ordered order, (b) calls routed over 1-3 clones and helper "
            "threads, (c) a second mock from the same clauses receiving interleaved foreign calls, (d) swapped "
@@ -79,7 +92,7 @@ def _run_config(ctx, config, cases):
     os.makedirs(out_dir, exist_ok=True)
     jobs = min(16, os.cpu_count() or 16)
     cmd = [exe, "run", "--prop", ctx.prop, "--cases", str(cases), "--seed", str(ctx.seed), "--jobs", str(jobs),
-           "--out", out_dir]
+           "--out", out_dir, "--enum-len", "4" if ctx.tier == "quick" else "6"]
     try:
         r = subprocess.run(cmd, env=common.base_env(), stdout=subprocess.PIPE, stderr=subprocess.DEVNULL,
                            text=True, timeout=3600)
@@ -132,8 +145,13 @@ def run(ctx):
             for s in w["samples"]:
                 if len(samples) < 6:
                     samples.append({"config": config, "case": s})
+        enumerated = sum(w.get("enumerated", 0) for w in workers)
+        total_eval += enumerated + stats.get("prefix_extension_cases", 0)
+        if ctx.prop == "C09":
+            ctx.require(enumerated > 0, f"no lifecycle sequence was enumerated ({config})")
         per_config[config] = {
             "cases": n,
+            "exhaustively_enumerated_lifecycle_sequences": enumerated,
             "distinct_nontrivial": summary["distinct_nontrivial"],
             "events_by_type": stats,
             "spec_variants_distinguishing_cases": dist,
@@ -159,6 +177,14 @@ def run(ctx):
             if config != "std" and variant in ("ThreadIgnored",):
                 continue
             ctx.require(count > 0, f"workload cannot tell Spec-M from its wrong variant {variant} ({config})")
+        if ctx.prop == "C07" and config == "std":
+            cells = sorted(k for k in stats if k.startswith("cell_"))
+            want = [f"cell_{m}_{s}_{c}" for m in ("strict", "partial") for s in ("unmentioned", "unmatched")
+                    for c in ("neither", "default", "real", "both", "pbd_real", "pbd_none")]
+            for w in want:
+                ctx.require(stats.get(w, 0) > 0, f"decision table cell {w[5:]} was not visited ({config})")
+            per_config[config]["decision_table_cells_visited"] = {c[5:]: stats[c] for c in cells}
+            per_config[config]["decision_table_exhaustive"] = all(stats.get(w, 0) > 0 for w in want)
         if ctx.prop == "C14":
             for a in range(2, 17):
                 ctx.require(arities.get(str(a), 0) > 0, f"coverage gate: no tuple of arity {a} ({config})")
